@@ -497,6 +497,60 @@ func zshadowParams(new func() *ZShadow, make ZShadow, cap, len *ZShadow) (string
 `)
 }
 
+func init() {
+	// self-referential types, package-level and function-local, used where
+	// checkers look through composite types (a walk over element / key types
+	// must terminate)
+	c10Zoo = append(c10Zoo, `package {{PKG}}
+
+// @immutable
+// @constructor newZRec
+// @testonly
+// @packageonly
+type ZRec struct {
+	Next *ZRec
+	Kids []ZRec
+	ByID map[string]*ZRec
+}
+
+func newZRec() *ZRec { return &ZRec{} }
+
+type ZNode map[*ZNode]bool
+type ZList []ZList
+type ZPtr *ZPtr
+type ZFn func(ZFn) ZFn
+type ZCh chan ZCh
+type ZRPair struct {
+	A *ZRPair
+	M map[*ZRPair][]ZRPair
+}
+
+var zrecs = map[*ZNode][]ZList{}
+
+func zrecursive(p ZPtr, f ZFn, c ZCh) (ZNode, []ZRPair) {
+	type node map[*node]bool
+	type list []list
+	type ptr *ptr
+	type rec struct {
+		r *rec
+		m map[*rec][]*ZRec
+	}
+	n := node{}
+	var l list
+	var q ptr
+	r := rec{m: map[*rec][]*ZRec{}}
+	_ = []node{n}
+	_ = map[*node]list{&n: l}
+	_, _, _ = l, q, r
+	var z ZRec
+	z.Next = &ZRec{}
+	z.Kids[0].Next = nil
+	z.ByID["k"].Kids = nil
+	return ZNode{}, []ZRPair{{}}
+}
+`)
+}
+
 // c10CommentGen draws comment text for the skeleton's slots.
 func c10CommentGen() *rapid.Generator[string] {
 	piece := rapid.OneOf(
